@@ -523,6 +523,38 @@ pub fn exec(c: &StreamCase, st: &mut Stats) -> Vec<Viol> {
                 continue;
             }
             let name = if plain { "read" } else { "read_with_options" };
+            // the same stream as UTF-16 (alternating byte order) through the transcoding decoder: same items
+            if !plain && !text.starts_with('\u{feff}') {
+                let be = c.docs.len() % 2 == 1;
+                let (b16, _) = crate::prop::c10::to_utf16(&text, be);
+                let script16 = ReaderScript {
+                    chunking: Some(match ch {
+                        Chunking::List(_) => Chunking::Fixed(7),
+                        other => other.clone(),
+                    }),
+                    ..Default::default()
+                };
+                let r16 = crate::with_target!(c.target, run_iter(&b16, &c.opts, &script16, max_calls, false));
+                st.evals += 1;
+                st.bump("utf16.streams_compared");
+                if r16.abnormal.is_none() {
+                    let a: Vec<String> = r.items.iter().map(|o| o.agree_key()).collect();
+                    let b: Vec<String> = r16.items.iter().map(|o| o.agree_key()).collect();
+                    if a != b || r.terminated != r16.terminated {
+                        out.push(mk(
+                            "utf16-stream-differs",
+                            format!(
+                                "[{}] read_with_options over the UTF-16 {} encoding yields {:?}, over UTF-8 {:?}",
+                                describe(),
+                                if be { "BE" } else { "LE" },
+                                r16.items.iter().map(|o| o.short()).collect::<Vec<_>>(),
+                                r.items.iter().map(|o| o.short()).collect::<Vec<_>>()
+                            ),
+                            Some(ch),
+                        ));
+                    }
+                }
+            }
             if !r.terminated {
                 out.push(mk(
                     "iterator-not-terminated",
